@@ -5,6 +5,9 @@ use tamon::common::{Ctx, Tier};
 use tamon::inst::{install_quiet_panic_hook, TOTAL_CALLS, TOTAL_INSTANCES, TOTAL_PANICS};
 use tamon::props;
 
+#[global_allocator]
+static GLOBAL: tamon::alloc::Counting = tamon::alloc::Counting;
+
 fn usage() -> ! {
     eprintln!("usage: mon run <C01..C19> [--tier quick|thorough] [--seed N] [--threads N] [--repo DIR] [--only a,b] --out FILE\n       mon replay <file>");
     std::process::exit(2);
